@@ -50,8 +50,9 @@ def _label(a):
 
 
 def run(scn, prefix, keep_trace=False, strict=True):
+    # the 1800 s receive timeout is housekeeping: it must not fire while a scenario's setup runs its own (long) drains
     w = World(scn.backend, config=scn.config, storage_options=scn.storage_options,
-              rate_limits=scn.rate_limits, max_limit=scn.max_limit)
+              rate_limits=scn.rate_limits, max_limit=scn.max_limit, message_timeout=1e300)
     x = Execution()
     x.scn = scn
     x.world = w
